@@ -240,6 +240,8 @@ def execute(plan, ctx):
         unsorted = list(w.index) != sorted(w.index)
         if unsorted:
             ctx.probe("weights_unsorted")
+            if (w == 0).any():
+                ctx.probe("weights_unsorted_with_zero_entry")
         pred_by_t = {t: np.asarray(est.predictors_[t].predict(Xq), dtype=float).reshape(-1) for t in w.index}
         sig.update(support=min(len(support), 4), unsorted=unsorted)
         if not regression:
@@ -247,6 +249,12 @@ def execute(plan, ctx):
     else:
         idict = est.interpolated_thresholder_.interpolation_dict
         sig.update(cons=plan["constraints"], p_ignore=any("p_ignore" in v and v.p_ignore != 0 for v in idict.values()))
+        if sig["p_ignore"]:
+            ctx.probe("p_ignore_present")
+            if all(v.p0 in (0, 1) for v in idict.values()):
+                ctx.probe("p_ignore_with_all_p0_in_{0,1}")
+        if any(0 < v.p0 < 1 for v in idict.values()):
+            ctx.probe("interpolation_between_two_thresholds")
     okp, pmf, site = _pmf(ctx, est, Xq, kw)
     if not okp:
         ctx.fail("C10.pmf_raised", f"_pmf_predict raised {type(pmf).__name__}: {pmf} at {site}")
